@@ -179,13 +179,14 @@ RULES = {
     "C07": "case = operation stream with injected failing calls applied to a primary and (successful operations only) "
            "to a twin; non-trivial = at least one failed call followed by a completed round; distinct = hash of the stream",
     "C10": "case = argument tuple for encode()/decode() (counts, shard lists with duplicates, out-of-range indexes, "
-           "mixed/invalid sizes, with and without recovery shards, half of them through filtering iterators with inexact size_hint, a third preceded by a failing call of the same shape, a quarter through iterators that state their own size_hint, a fifth as sub-slices of one flat buffer at odd addresses, one in fifty with shards of 64 KiB - 3 MiB) compared with the streaming API and the truth model; "
+           "mixed/invalid sizes, with and without recovery shards, half of them through filtering iterators with inexact size_hint, a third preceded by a failing call of the same shape, a quarter through iterators that state their own size_hint, a fifth as sub-slices of one flat buffer at odd addresses, one in fifty with shards of 64 KiB - 3 MiB, a sixth through non-fused iterators) compared with the streaming API and the truth model; "
            "distinct = hash of the arguments",
     "C11": "case = minimal received set decoded in ascending order (reference), 4 permutations/interleavings and 3 "
            "supersets incl. all shards; non-trivial = at least one original missing in the minimal set",
     "C12": "case = 1-50 consecutive rounds on one object; after each encode/decode every accessor is probed with "
            "in-range, boundary, 2^32, 2^63, usize::MAX and wrap-around indexes and compared with the accessor model; "
-           "a third of the objects have a past; one round in six ends with the result dropped by unwinding; "
+           "a third of the objects have a past; one round in six ends with the result dropped by unwinding; the Iterator "
+           "contract (count, size_hint, nth, last, skip, step_by) of both result iterators is checked against next(); "
            "evaluations = rounds observed",
     "C08": "stage grid enumerates ALL (k, r) in 0..=65537 squared against five supports() predicates (exhaustive); "
            "hostile-scalars adds values up to usize::MAX; constructors compares new/reset/validate with "
